@@ -466,7 +466,18 @@ func ruleExactTruncationIn(file string, min int) func(p *Prog, l *Ledger, tier s
 							continue
 						}
 						q, ok := stripConv(side).(*ssa.BinOp)
-						if !ok || q.Op != token.QUO || !isIntegerT(q.Type()) {
+						if !ok {
+							// the quotient may have been put aside in a field (a unit computed once per document)
+							if t, f, base := loadedField(stripConv(side)); base != nil && f != "" {
+								if fq := quotientStoredInField(p, t, f); fq != nil {
+									n++
+									key := l.Key(rule, name, "scaled-quotient", t+"."+f)
+									l.Fail(rule, name, key, p.Pos(m.Pos()), fmt.Sprintf("%s multiplies %s.%s, which holds an integer quotient (… / %s, computed at %s) whose remainder is already discarded: one frame or one tick is too short whenever the rate does not divide the dividend (11111 ns for a 90 kHz tick), and the error grows with the count", name, t, f, descOf(fq.Y), p.Pos(fq.Pos())))
+								}
+							}
+							continue
+						}
+						if q.Op != token.QUO || !isIntegerT(q.Type()) {
 							continue
 						}
 						n++
@@ -833,4 +844,28 @@ func mentionsTime(v ssa.Value, depth int) bool {
 		return false
 	}
 	return true // calls and anything else: not excluded
+}
+
+// quotientStoredInField: some store of the library into field f of struct type t holds an integer quotient whose divisor
+// is not a constant.
+func quotientStoredInField(p *Prog, t, f string) *ssa.BinOp {
+	for _, fn := range p.LibFns {
+		for _, b := range fn.Blocks {
+			for _, ins := range b.Instrs {
+				st, ok := ins.(*ssa.Store)
+				if !ok {
+					continue
+				}
+				if t2, f2 := fieldOfAddr(st.Addr); t2 != t || f2 != f {
+					continue
+				}
+				if q, ok := stripConv(st.Val).(*ssa.BinOp); ok && q.Op == token.QUO && isIntegerT(q.Type()) {
+					if _, isC := constInt(stripConv(q.Y)); !isC {
+						return q
+					}
+				}
+			}
+		}
+	}
+	return nil
 }
